@@ -15,6 +15,8 @@ type apisvcIn struct {
 	Dry       int  `json:"dry"` // 0 none 1 client 2 server
 	SSA       bool `json:"ssa"`
 	StreamErr bool `json:"streamErr"` // the first mutating request of the run's apply phase answers with a stream error
+	// the request after it (the client-side retry, where there is one) fails as well: the apply failed, whatever path was tried last
+	RetryFails bool `json:"retryFails,omitempty"`
 	Exists    bool `json:"exists"`    // the APIService already exists in the cluster
 }
 
@@ -33,6 +35,9 @@ func runApisvc(in apisvcIn) map[string]any {
 			k = 0
 		}
 		run.FailMut = []int{k}
+		if in.RetryFails {
+			run.FailMut = []int{k, k + 1}
+		}
 		run.FailCode = 5001
 	}
 	h.Runs = []sysRun{run}
@@ -75,6 +80,10 @@ func genApisvc(out *proto.Out, _ *proto.Rng, _ string) {
 				for _, ex := range []bool{false, true} {
 					in := apisvcIn{Dry: dry, SSA: ssa, StreamErr: se, Exists: ex}
 					out.Emit("apisvc", in, runApisvc(in))
+					if se && ssa {
+						in.RetryFails = true
+						out.Emit("apisvc", in, runApisvc(in))
+					}
 				}
 			}
 		}
